@@ -33,7 +33,7 @@ import traceback
 from vmon import reach
 from vmon.models import c04_style as S
 from vmon.models import grid as G
-from vmon.models.vt import DEC_GRAPHICS, GARBAGE, VT
+from vmon.models.vt import BLANK, DEC_GRAPHICS, GARBAGE, VT
 
 PROPERTY = "C04"
 LEVEL = "exploration"
@@ -410,10 +410,11 @@ def vt_vis(c, bib):
 class Found(Exception):
     """first oracle failure of a history: (sig, msg)"""
 
-    def __init__(self, sig, msg):
+    def __init__(self, sig, msg, cell=None):
         super().__init__(sig)
         self.sig = sig
         self.msg = msg
+        self.cell = cell
 
 
 def attr_kind(a, pal: S.Palette):
@@ -441,7 +442,7 @@ def row_shape(exp: Expect, y, cfg):
     if zs == 0:
         return f"tail={ztag}-sole"
     ys, yw = unit(zs - 1)
-    return f"tail=Y{yw}{_cs_tag(exp, y, ys)}-{ztag}{_cs_tag(exp, y, zs)}"
+    return f"tail=Y{yw}-{ztag}" + (",charsets-differ" if _cs_tag(exp, y, ys) != _cs_tag(exp, y, zs) else "")
 
 
 def _cs_tag(exp, y, x):
@@ -488,17 +489,24 @@ class Session:
         self.last_frame = None
         self.pending_full = True  # next draw must be a complete repaint (start / clear / resize)
         self.scroll_seen = 0
+        self.font_before = False
+        self.cy_stale = False
+        self.alt = cfg.get("alt", True)
+        self.base = 0 if self.alt else cfg.get("base", 0)
         self.started = False
 
     def start(self, size):
         self.size = size
         self.pty.set_size(*size)
-        self.scr.start()
-        self.started = True
         self.vt = VT(size[0], size[1], utf8=enc_mode(self.enc) == "utf8", bce=self.bce, encoding="latin-1")
+        if not self.alt:
+            # partial-screen mode: the display starts at the cursor row of the normal screen, below `base` rows of history
+            self.vt.feed((b"H" * size[0] + b"\r\n") * self.base)
+        self.scr.start(alternate_buffer=self.alt)
+        self.started = True
         self.feed()
-        if not self.vt.alt_screen:
-            raise Found("C04|raw|start|alternate-screen-not-entered", "after start() the VT is not on the alternate screen")
+        if self.alt != self.vt.alt_screen:
+            raise Found("C04|raw|start|alternate-screen-state-wrong", f"after start(alternate_buffer={self.alt}) alt_screen={self.vt.alt_screen}")
         got = self.scr.get_cols_rows()
         if tuple(got) != tuple(size):
             raise RuntimeError(f"harness: get_cols_rows {got} != {size}")
@@ -523,6 +531,7 @@ class Session:
             data = s.encode("utf-8" if enc_mode(self.enc) == "utf8" else ("latin-1" if self.enc == "ascii" and s.isascii() else self.enc))
         except UnicodeEncodeError as e:
             raise Found("C04|raw|output|not-encodable-in-screen-encoding", f"{e}: {s!r}") from e
+        self.font_before = self.vt.altfont  # SGR 11 (IBM-PC font) still selected by an earlier frame
         self.vt.feed(data)
         return data
 
@@ -542,11 +551,30 @@ class Session:
         self.pending_full = True
         self.count("resizes")
 
+    def garbage(self):
+        """the screen content is unknown / must not be relied on (not in partial-screen mode, where clear() only
+        forces a repaint of a terminal nobody erased and blank rows are deliberately left alone)"""
+        if self.alt:
+            self.vt.fill_garbage()
+
     def op_clear(self):
         self.scr.clear()
-        self.vt.fill_garbage()
+        self.garbage()
         self.pending_full = True
         self.count("clears")
+
+    def partial_ok(self, exp):
+        """partial-screen mode: rows that have no terminal row must be blank, the cursor must be on the screen"""
+        n = exp.rows - self.base
+        if exp.cursor is not None and exp.cursor[1] >= n:
+            return False
+        return all(c[0] == " " and c[1] == S.DEFAULT_STYLE for y in range(max(n, 0), exp.rows) for c in exp.cells[y])
+
+    def note_cy(self):
+        """classification aid only (never a verdict): in partial-screen mode urwid moves relative to the row it believes the
+        terminal cursor is on (Screen._cy); remember whether that belief is already wrong before this draw"""
+        if (not self.alt) and self.vt is not None and (self.vt.cursor[1] - self.base) != self.scr._cy:
+            self.cy_stale = True  # sticky: once a frame was painted at the wrong rows everything later in this session is suspect
 
     def op_winch(self):
         self.resize(self.size)
@@ -569,8 +597,12 @@ class Session:
             self.start(size)
         elif size != self.size:
             self.resize(size)
+        if not self.alt and not self.partial_ok(exp):
+            self.count("frames_skipped_invalid_for_partial_mode")
+            return False
         shape = row_shape(exp, size[1] - 1, self.cfg)
         before = self.rec.total
+        self.note_cy()
         old_exp = self.exp
         try:
             self.scr.draw_screen(size, canvas)
@@ -579,7 +611,6 @@ class Session:
                 f"C04|raw|draw_screen|raise:{type(e).__name__}|last-row:{shape}",
                 f"{type(e).__name__}: {e}\n{traceback.format_exc(limit=5)}",
             ) from e
-        font_left_on = self.vt.altfont  # SGR 11 (IBM-PC font) still active from an earlier frame
         data = self.feed()
         self.exp, self.last_canvas, self.last_frame = exp, canvas, frame
         self.count("frames_drawn")
@@ -587,18 +618,15 @@ class Session:
         self.count("bytes_fed", len(data))
         if enc_mode(self.enc) != "utf8":
             self.count("enc_nonutf8_frames")
+        if not self.alt:
+            self.count("partial_mode_frames")
         if frame["k"] == "widget":
             self.count("widget_frames")
         if self.rec.total == before:
             self.count("draws_without_output")
         self.observe_paths(exp, old_exp, data)
         self.pending_full = False
-        try:
-            self.compare(exp, "draw")
-        except Found as f:
-            if font_left_on and "|glyph|" in f.sig and not any(cs == "U" for row in exp.items for (_b, _w, _a, cs) in row):
-                raise Found("C04|raw|glyph|ibmpc-font-left-on-by-previous-frame", f.msg) from f
-            raise
+        self.compare(exp, "draw")
         if exp.has_c0:
             self.count("frames_with_c0_control")
         return True
@@ -625,6 +653,12 @@ class Session:
         except Found as f:
             if exp.has_c0:
                 raise Found("C04|raw|c0-control-in-canvas-text|painted-as-?-in-a-column-the-canvas-does-not-have", f.msg) from f
+            if self.cy_stale:
+                raise Found("C04|raw|partial-screen|frame-painted-at-wrong-rows|cursor-row-bookkeeping-stale-after-frame-without-cursor", f.msg) from f
+            if self.font_before and "|glyph|" in f.sig and f.cell:
+                x, y = f.cell
+                if _cs_tag(exp, y, x - (exp.cells[y][x][2] == 2)) != "ibm":
+                    raise Found("C04|raw|glyph|ibmpc-font-left-on-by-previous-frame", f.msg) from f
             raise
 
     def _compare(self, exp: Expect, phase):
@@ -634,13 +668,18 @@ class Session:
         n = 0
         if (vt.cols, vt.rows) != (exp.cols, exp.rows):
             raise RuntimeError("harness: VT size out of step")
+        base = self.base
+        nrows = exp.rows - base  # canvas rows that have a terminal row (the rest must be blank: generator invariant)
+        for y in range(base):
+            if any(c.ch != "H" for c in vt.cells[y]):
+                raise Found("C04|raw|history-rows-above-the-display-overwritten", f"row {y} above the partial display changed\n{self.describe(exp)}")
         if vt.scroll_count != self.scroll_seen:
             k = vt.scroll_count - self.scroll_seen
             self.scroll_seen = vt.scroll_count
             raise Found(f"C04|raw|scrolled|last-row:{row_shape(exp, exp.rows - 1, cfg)}", f"screen scrolled {k} line(s) during {phase}\n{self.describe(exp)}")
         # pass 1: every cell painted, glyphs (incl. wide-character halves) in place
-        for y in range(exp.rows):
-            vrow = vt.cells[y]
+        for y in range(nrows):
+            vrow = vt.cells[y + base]
             erow = exp.cells[y]
             for x in range(exp.cols):
                 c = vrow[x]
@@ -655,15 +694,24 @@ class Session:
                     raise Found(
                         f"C04|raw|glyph|{'last-row' if y == exp.rows - 1 else self.where(exp, x, y)}|{row_shape(exp, y, cfg)}",
                         f"cell ({x},{y}): terminal shows {c.ch!r} (wide-part {c.wide}), canvas has {e[0]!r} (wide-part {e[2]})\n{self.describe(exp)}",
+                        cell=(x, y),
                     )
         # pass 2: colours and style flags
-        for y in range(exp.rows):
-            vrow = vt.cells[y]
+        none_style = self.pal.style(None, self.colors)
+        for y in range(nrows):
+            vrow = vt.cells[y + base]
             erow = exp.cells[y]
+            blank_row = not self.alt and all(c[0] == " " for c in erow)
+            if blank_row and all(c[1] == none_style for c in erow):
+                self.count("partial_blank_rows_style_not_judged")
+                continue  # partial-screen mode deliberately leaves blank default-attribute rows below the used area unpainted
             for x in range(exp.cols):
                 c = vrow[x]
-                if c.wide == 2 and False:
-                    continue
+                if blank_row and all(v.ch == " " and v.erased and v.style() == BLANK.style() for v in vrow) and vt_vis(c, bib) != exp.vis(y, x):
+                    raise Found(
+                        "C04|raw|partial-screen|blank-row-with-visible-attribute-left-unpainted",
+                        f"row {y} is blank but carries attribute {erow[x][3]!r} ({erow[x][1]}); the terminal row was never painted\n{self.describe(exp)}",
+                    )
                 e = erow[x]
                 a = vt_vis(c, bib) if c.wide != 2 else vt_vis(c._replace(ch=vrow[x - 1].ch), bib)
                 b = exp.vis(y, x) if c.wide != 2 else exp.vis(y, x - 1)
@@ -680,15 +728,15 @@ class Session:
         else:
             if not vt.cursor_visible:
                 raise Found(f"C04|raw|{phase}|cursor|hidden-but-canvas-has-one", f"canvas cursor {exp.cursor}\n{self.describe(exp)}")
-            if tuple(vt.cursor) != tuple(exp.cursor):
+            if tuple(vt.cursor) != (exp.cursor[0], exp.cursor[1] + base):
                 raise Found(
                     f"C04|raw|{phase}|cursor|wrong-position", f"terminal cursor {vt.cursor}, canvas cursor {exp.cursor}\n{self.describe(exp)}"
                 )
             self.count("cursor_shown_ok")
         if vt.insert_mode:
             raise Found(f"C04|raw|{phase}|insert-mode-left-on", self.describe(exp))
-        if not vt.alt_screen:
-            raise Found(f"C04|raw|{phase}|left-alternate-screen", self.describe(exp))
+        if vt.alt_screen != self.alt:
+            raise Found(f"C04|raw|{phase}|alternate-screen-state-changed", self.describe(exp))
 
     def where(self, exp, x, y):
         """row class + whether the cell belongs to the last two characters of the row"""
@@ -744,10 +792,11 @@ class Session:
             return
         s1 = None if self.pending_full else self.snapshot()
         self.scr.clear()
-        self.vt.fill_garbage()
+        self.garbage()
         self.pending_full = True
         canvas = build_frame(self.last_frame)
         exp = Expect(canvas, self.size, self.enc, self.pal, self.colors, self.bib)
+        self.note_cy()
         try:
             self.scr.draw_screen(self.size, canvas)
         except Exception as e:  # noqa: BLE001
@@ -758,6 +807,8 @@ class Session:
         s2 = self.snapshot()
         self.count("repaint_equivalence_checks")
         if s1 is not None and s1 != s2:
+            if self.cy_stale:
+                raise Found("C04|raw|partial-screen|frame-painted-at-wrong-rows|cursor-row-bookkeeping-stale-after-frame-without-cursor", f"incremental {s1}\nfull {s2}")
             raise Found("C04|raw|history-differs-from-full-repaint", f"incremental {s1}\nfull {s2}")
 
 
@@ -773,11 +824,12 @@ def run_raw(ctx, case, count=True):
         try:
             return fn(*a, **kw)
         except Found as f:
-            if all(f.sig != s for s, _ in found):
-                found.append((f.sig, f.msg))
+            sig = f.sig
+            if all(sig != s for s, _ in found):
+                found.append((sig, f.msg))
             if sess.vt is not None and sess.started:
                 sess.scr.clear()
-                sess.vt.fill_garbage()
+                sess.garbage()
                 sess.pending_full = True
             return False
 
@@ -786,6 +838,8 @@ def run_raw(ctx, case, count=True):
         for op in case["ops"]:
             k = op[0]
             if k == "draw":
+                if not sess.alt and sess.size is not None and frame_size(op[1]) != sess.size:
+                    continue  # no resizes in partial-screen histories
                 if step(sess.draw, op[1]):
                     drawn += 1
             elif sess.size is None or sess.last_frame is None:
@@ -793,8 +847,11 @@ def run_raw(ctx, case, count=True):
             elif k == "clear":
                 sess.op_clear()
             elif k == "winch":
-                sess.op_winch()
-            elif k == "again" and not sess.pending_full:  # the very same canvas object: draw_screen returns early
+                if sess.alt:
+                    sess.op_winch()
+            elif k == "again" and frame_size(sess.last_frame) == sess.size:
+                # the very same canvas object (what MainLoop passes when the canvas cache hits): draw_screen may return
+                # early, but not after clear() / a resize
                 step(sess.draw, sess.last_frame, canvas=sess.last_canvas, tag="same_object")
             elif k in ("equal", "again"):  # an equal canvas in a new object: every row is skipped
                 step(sess.draw, sess.last_frame, tag="equal")
@@ -868,6 +925,11 @@ def run_html(ctx, cfg, palette, frame, count=True):
         for y, line in enumerate(lines):
             want = "".join(c[0] for c in exp.cells[y])
             got = _html.unescape(re.sub(r"<[^>]*>", "", line))
+            if any(cs == "U" for (_b, _w, _a, cs) in exp.items[y]):
+                cnt("html_rows_not_judged_ibm_charset")
+                if got != want:
+                    return None
+                continue
             if exp_has_c0_row(exp, y):
                 cnt("html_rows_not_judged_c0_control")
                 if got != want:
@@ -1275,6 +1337,35 @@ def mutate_tree(rng, t, enc):
     return t
 
 
+def gen_partial_case(rng, cfg, palette, pool, enc):
+    """partial-screen mode (start(alternate_buffer=False)): the display starts `base` rows down the normal screen; only the
+    first h - base canvas rows may be non-blank (the application is given the whole terminal height by get_cols_rows)"""
+    w, h = rng.choice(SIZES_W), rng.choice([2, 3, 4, 5, 6, 8])
+    base = rng.randrange(0, h)
+    cfg = dict(cfg, alt=False, base=base)
+
+    def fresh():
+        k = rng.randint(0, h - base)
+        fr = gen_text_frame(rng, w, h, enc, pool)
+        for y in range(k, h):
+            fr["rows"][y] = [[" " * w, None]]
+        if fr["cur"] and fr["cur"][1] >= max(k, 1):
+            fr["cur"] = [fr["cur"][0], rng.randrange(max(k, 1))] if h - base >= 1 else None
+        fr["wrap"] = ["text"]
+        return fr
+
+    ops = [["draw", fresh()]]
+    for _ in range(rng.randint(1, 8)):
+        r = rng.random()
+        if r < 0.75:
+            ops.append(["draw", fresh()])
+        elif r < 0.85:
+            ops.append(["clear"])
+        else:
+            ops.append([rng.choice(["again", "equal"])])
+    return {"cfg": cfg, "palette": palette, "ops": ops}
+
+
 SIZES_W = [1, 1, 2, 2, 2, 3, 3, 4, 5, 5, 6, 7, 8, 10, 13, 16, 20, 27, 33, 40]
 SIZES_H = [1, 1, 2, 2, 3, 3, 4, 5, 6, 8, 10, 12]
 
@@ -1296,6 +1387,8 @@ def gen_case(rng):
 
     c0_p = 0.5 if rng.random() < 0.04 else 0.0
     ibm = enc == "iso8859-1" and rng.random() < 0.12
+    if rng.random() < 0.1:
+        return gen_partial_case(rng, cfg, palette, pool, enc)
     cur = fresh(w, h)
     ops.append(["draw", cur])
     for _ in range(rng.randint(0, 11)):
